@@ -1034,6 +1034,9 @@ func (t *TableCache) Populate(tableUpdates ovsdb.TableUpdates) error {
 		tCache := t.cache[table]
 		for uuid, row := range tu {
 			t.logger.V(5).Info("processing update", "table", table, "uuid", uuid)
+			if row == nil {
+				return NewErrCacheInconsistent(fmt.Sprintf("row with uuid %s has no update", uuid))
+			}
 			update := updates.ModelUpdates{}
 			current := tCache.cache[uuid]
 			if row.Old != nil && current == nil {
@@ -1064,6 +1067,9 @@ func (t *TableCache) Populate2(tableUpdates ovsdb.TableUpdates2) error {
 		tCache := t.cache[table]
 		for uuid, row := range tu {
 			t.logger.V(5).Info("processing update", "table", table, "uuid", uuid)
+			if row == nil {
+				return NewErrCacheInconsistent(fmt.Sprintf("row with uuid %s has no update", uuid))
+			}
 			update := updates.ModelUpdates{}
 			current := tCache.cache[uuid]
 			if row.Initial == nil && row.Insert == nil && current == nil {
